@@ -59,6 +59,7 @@ def _c09_hist(h):
     for nm, S, pts in cases:
         d0 = desc_of(S)
         truth0 = [d0.contains(p) for p in pts]
+        lib0 = [(float(p[0]), float(p[1])) in S for p in pts]  # what the library said before the transformation
         area0 = IntegrateShape.area(S)
         for rep in range(2 if h.tier == "quick" else 6):
             T = _copy.deepcopy(S)
@@ -96,7 +97,7 @@ def _c09_hist(h):
             else:
                 h.ensure("area-is-det-times-old-area", abs(float(a1) - float(det * area0)) <= 1e-9 * (1 + abs(float(det * area0))), detail=f"{nm} {seq}: {float(a1)} vs {float(det * area0)}")
             dT = desc_of(T)
-            for p, t0 in zip(pts, truth0):
+            for p, t0, l0 in zip(pts, truth0, lib0):
                 if t0 is None:
                     continue
                 tp = (M[0][0] * p[0] + M[0][1] * p[1] + v[0], M[1][0] * p[0] + M[1][1] * p[1] + v[1])
@@ -105,7 +106,7 @@ def _c09_hist(h):
                     h.ensure("transformed-region-contains-T(p)-iff-region-contained-p", g == t0, detail=f"{nm} {seq}: p={tuple(map(float, p))}")
                 try:
                     lib = (float(tp[0]), float(tp[1])) in T
-                    h.ensure("library-membership-equivariant", lib == t0, detail=f"{nm} {seq}: T(p)={tuple(map(float, tp))} truth {t0} library {lib}")
+                    h.ensure("library-membership-equivariant", lib == l0, detail=f"{nm} {seq}: T(p)={tuple(map(float, tp))}: `p in S` was {l0}, `T(p) in T(S)` is {lib} (truth {t0})")
                 except Exception as e:  # noqa: BLE001
                     h.ensure("membership-after-transformation-does-not-raise", False, detail=f"{nm} {seq}: {type(e).__name__}")
             h.ensure("still-well-formed", not well_formed(T), detail=f"{nm} {seq}")
@@ -494,7 +495,14 @@ def _c15_clean(h):
                     h.ensure("clean-idempotent", len(j.segments) == n1, detail=where)
                     eq = j == orig
                 except Exception as e:  # noqa: BLE001
-                    h.ensure("clean-does-not-raise", False, detail=f"{where}: {type(e).__name__}: {e}")
+                    import traceback as _tb
+
+                    frames = [f.filename for f in _tb.extract_tb(e.__traceback__)]
+                    if isinstance(e, TypeError) and "Rational instances" in str(e) and any("pynurbs" in f for f in frames) and typ == "frac" and not straight:
+                        # mechanism-pinned: exact-rational least squares inside pynurbs.Curve.knot_clean (called by PlanarCurve.__or__)
+                        h.finding("clean-typeerror-rational-curved", f"{where}: clean() raised TypeError inside pynurbs (knot removal with Fraction data)")
+                    else:
+                        h.ensure("clean-does-not-raise", False, detail=f"{where}: {type(e).__name__}: {e}")
                     continue
                 reduced = any(s.degree < o.degree for s in j.segments for o in orig.segments) and not straight and len(j.segments) != nseg
                 if len(j.segments) == nseg and eq is True:
